@@ -69,16 +69,17 @@ type Driver struct {
 	Lines int
 }
 
-// DriverPath locates the compiled Lean driver.
-func DriverPath() string {
-	if p := os.Getenv("VERIF_DRIVER"); p != "" {
-		return p
+// DriverPath locates the compiled Lean driver of a model (lean_exe drv_<model>).
+func DriverPath(model string) string {
+	dir := os.Getenv("VERIF_DRIVER_DIR")
+	if dir == "" {
+		dir = "/verif/lean/.lake/build/bin"
 	}
-	return "/verif/lean/.lake/build/bin/driver"
+	return filepath.Join(dir, "drv_"+model)
 }
 
 func StartDriver(model string, args ...string) (*Driver, error) {
-	cmd := exec.Command(DriverPath(), append([]string{model}, args...)...)
+	cmd := exec.Command(DriverPath(model), args...)
 	in, err := cmd.StdinPipe()
 	if err != nil {
 		return nil, err
